@@ -88,6 +88,18 @@ CHECKS = {
         'note': TRUST + ' Not decided: that equal save text implies equal futures; float fidelity; history-dependent aspects.',
         'technique': 'static analysis: key-table recovery (Map::insert keys vs Map::get keys), field-coverage over MIR places, downcast/variant exhaustiveness',
     },
+    'C12': {
+        'text': 'Binding-mode discipline as a typestate over three guard atoms (A = binding.lookahead_safe, B = '
+                'in_string_evaluation(), C = snapshot pending), decided by a path-sensitive dataflow over the MIR of the '
+                'function that contains the dyn call ExternalFunction::call: REFUSE only with A=F,B=T; DEFER only with '
+                'A=F,C=T; CALL only with A=T or A=F,B=F,C=F; arguments.reverse() on every path from the pop loop to the '
+                'call, loop bounded by number_of_arguments, result pushed on every path; no call/unwrap without a '
+                'binding; continue_async validates bindings before running. The suite binds everything as safe, so the '
+                'unsafe mode and the refusal path are never executed by any test.',
+        'design_ref': 'DESIGN.md §4 C12',
+        'note': TRUST + ' Not decided: number of host calls per executed call across rewinds; argument values.',
+        'technique': 'static analysis: guard-atom abstract interpretation (typestate) + CFG must-pass-through over MIR',
+    },
 }
 
 NOT_APPLICABLE = {
